@@ -1,13 +1,22 @@
 #!/usr/bin/env python3
 """Copies confirmed seeded changes into /verif/seeded/<id>/ (patch.diff, demo.diff, meta.json)."""
 import json, os, shutil, glob, sys
+HISTORY = {
+ ('Q','C20'): "missed by the check as it stood (the end-of-run query probes ran with nothing else going on); the probes now run while a new peer connects and one lock-section boundary of the query or of connection handling is slow",
+ ('T','C18'): "missed by the check as it stood (after a failed write only the reopened file was examined); the manager that saw the write fail is now asked too and must agree with the file",
+ ('P','C01'): "missed by the check as it stood (no configuration filled the lookup's candidate queue with responsive peers); a crowd family (199..250 responsive peers named in one reply, both orders) was added",
+ ('P','C07'): "missed by the check as it stood (after snapshot damage only 'genuine' and 'reported' were judged); the intact log must now be honoured on top of whichever snapshot survives",
+ ('P','C19'): "missed by the check as it stood (no IPv4-mapped IPv6 peer in the dial family); four address classes were added",
+}
 for cf in sorted(glob.glob('/tmp/confirm/*-C*.json')):
     g, pid = os.path.basename(cf)[:-5].split('-')
     c = json.load(open(cf))
     src = f'/tmp/mut{g}-out/{pid}'
     if c.get('status') != 'confirmed':
         print('skip', g, pid, c.get('status')); continue
-    dst = f'/verif/seeded/{pid}' if g in 'ABCDE' else (f'/verif/seeded/{pid}-2' if g in 'FGHIJ' else f'/verif/seeded/{pid}-3')
+    dst = f'/verif/seeded/{pid}' if g in 'ABCDE' else (f'/verif/seeded/{pid}-2' if g in 'FGHIJ' else (f'/verif/seeded/{pid}-3' if g in 'KLMNO' else f'/verif/seeded/{pid}-4'))
+    if g in 'PQRST' and os.path.exists(f'{dst}/meta.json') and not os.environ.get('FORCE'):
+        continue
     os.makedirs(dst, exist_ok=True)
     shutil.copy(f'{src}/patch.diff', f'{dst}/patch.diff')
     shutil.copy(f'{src}/demo.diff', f'{dst}/demo.diff')
@@ -31,5 +40,9 @@ for cf in sorted(glob.glob('/tmp/confirm/*-C*.json')):
             "note": "cargo nextest run --workspace --lib (all unit tests) with the patch applied; test_bandwidth_tracker_window_reset and test_ipv4_node_id_age are wall-clock flakes that also fail on the unpatched tree under load",
         },
     }
+    if c.get('batch'):
+        meta['confirmed_by_me']['batch'] = c['batch']
+    if HISTORY.get((g, pid)):
+        meta['history'] = HISTORY[(g, pid)]
     json.dump(meta, open(f'{dst}/meta.json', 'w'), indent=1)
     print('kept', pid)
